@@ -473,8 +473,55 @@ def direct_mutations(rng):
     return spec, old, [mu], v
 
 
+def blank_field_probe(ctx):
+    """hints for NOT NULL columns without a default whose fields are declared blank=True: a text field can start out
+    as the empty string, a number/date cannot - there the hint has to ask for the value (the placeholder that refuses
+    to load), whatever the form validation allows"""
+    from django_evolution.diff import Diff
+    def fld(name, t, **attrs):
+        return {'name': name, 'type': t, 'attrs': attrs, 'related': None}
+
+    def alpha(fields):
+        return {'apps': [{'id': 'vapp', 'models': [
+            {'name': 'Alpha', 'table': 'vapp_alpha', 'unique_together': [], 'index_together': [], 'indexes': [],
+             'constraints': [], 'fields': [fld('id', 'AutoField', primary_key=True)] + fields}]}]}
+    for ftype, extra, needs in (('IntegerField', {}, True), ('DateField', {}, True), ('BooleanField', {}, True),
+                                ('DecimalField', {'max_digits': 6, 'decimal_places': 2}, True),
+                                ('CharField', {'max_length': 10}, False)):
+        old_spec = alpha([fld('a', 'IntegerField', null=True), fld('born', ftype, null=True, blank=True, **extra)])
+        new_spec = alpha([fld('a', 'IntegerField', null=True), fld('born', ftype, blank=True, **extra),
+                          fld('extra', ftype, blank=True, **extra)])
+        old = dbrig.sig_from_models(dbrig.build_models(old_spec))
+        evorig.install_models(new_spec)
+        new = dbrig.sig_from_models(dbrig.build_models(new_spec))
+        hint = Diff(old, new).evolution().get('vapp', [])
+        text = module_text(hint)
+        rep = {'scenario': 'blank=True NOT NULL %s added / made NOT NULL' % ftype, 'text': text}
+        ctx.count('blank_field_probe')
+        ctx.case({'scenario': 'blank fields', 'type': ftype, 'hint': [m.generate_hint() for m in hint]}, nontrivial=True,
+                 sample_cap=2)
+        if len(hint) != 2:
+            ctx.fail(None, 'expected an AddField and a ChangeField in the hint, got %r' % [m.generate_hint() for m in hint], rep)
+            continue
+        if needs:
+            try:
+                load_module(text)
+                ctx.fail(None, 'the hint for a NOT NULL %s without default neither supplies a value nor asks for one: it '
+                         'loads without complaint' % ftype, rep)
+            except SyntaxError:
+                pass
+            except Exception as e:
+                ctx.fail(None, 'a hint that needs a user-supplied value fails with %s, not as an explicit placeholder'
+                         % type(e).__name__, rep)
+        else:
+            tagsp, what = compare_loaded(ctx, old, hint, text, rep, spec=old_spec)
+            if what:
+                ctx.fail(None, 'hinted evolution (blank text fields): ' + what, rep)
+
+
 def mutation_level(ctx, n_hint, n_direct, wit):
     evorig.setup()
+    blank_field_probe(ctx)
     done = tries = 0
     while done < n_hint and tries < n_hint * 5 and ctx.time_left() > 30:
         tries += 1
